@@ -1243,6 +1243,162 @@ def check_nnx_twins(ctx, case):
 
 
 # ------------------------------------------------------------------------------------------------
+# nodes holding several RngStream objects with the same name (parts built with their own nnx.Rngs), shared objects, reseed
+# ------------------------------------------------------------------------------------------------
+
+
+class _Holder(nnx.Module):
+  pass
+
+
+def gen_node_case(rng):
+  names = ['dropout', 'params', 'noise', 'default']
+  parts = []
+  for i in range(rng.randrange(2, 5)):
+    k = rng.randrange(1, 4)
+    streams = rng.sample(names, k)
+    if rng.random() < 0.7 and 'dropout' not in streams:
+      streams[0] = 'dropout'  # the same name in several parts is the point
+    parent = rng.randrange(i) if i and rng.random() < 0.4 else None
+    parts.append({'name': f'part{i}', 'parent': parent, 'streams': [[s, rng.randrange(0, 6), rng.choice(['int', 'typed', 'legacy'])] for s in streams]})
+  places = [[f"{p['name']}.{s[0]}", i, s[0]] for i, p in enumerate(parts) for s in p['streams']]
+  aliases = []
+  for j in range(rng.randrange(0, 3)):
+    pl = rng.choice(places)
+    aliases.append([f'alias{j}', pl[1], pl[2]])
+  allplaces = [pl[0] for pl in places] + [a[0] for a in aliases]
+  ops = []
+  for _ in range(rng.randrange(3, 12)):
+    r = rng.random()
+    if r < 0.6:
+      ops.append(['call', rng.choice(allplaces)])
+    elif r < 0.85:
+      ops.append(['reseed', [[n, rng.randrange(0, 6), rng.choice(['int', 'typed'])] for n in rng.sample(names + ['zz'], rng.randrange(1, 3))]])
+    else:
+      ops.append(['state'])
+  ops.append(['reseed', [[rng.choice(names[:2]), rng.randrange(0, 6), 'int']]])
+  ops.append(['state'])
+  ops += [['call', pl] for pl in allplaces]
+  return {'kind': 'nnx-node', 'parts': parts, 'aliases': aliases, 'ops': ops}
+
+
+def _node_layout(case):
+  """object ids (creation order) and places -> object id"""
+  objs, places = [], {}
+  for i, p in enumerate(case['parts']):
+    for s in p['streams']:
+      places[f"{p['name']}.{s[0]}"] = len(objs)
+      objs.append((i, s[0], s[1], s[2]))
+  for an, pi, sname in case['aliases']:
+    places[an] = places[f"{case['parts'][pi]['name']}.{sname}"]
+  return objs, places
+
+
+def node_reqs(case):
+  objs, places = _node_layout(case)
+  ids, seedtab = {}, {}
+
+  def sid(n):
+    if n not in ids:
+      ids[n] = len(ids)
+      seedtab[ids[n]] = ('typed', n)
+    return ids[n]
+
+  mobjs = [[i, o[1], sid(o[2])] for i, o in enumerate(objs)]
+  mplaces = [[pl, i] for pl, i in places.items()]
+  mops = [(['reseed', [[n, sid(v)] for n, v, _ in op[1]]] if op[0] == 'reseed' else op) for op in case['ops']]
+  return [('nnx_node', [mobjs, mplaces, mops])], seedtab
+
+
+def run_node_impl(case):
+  objs, places = _node_layout(case)
+  root = _Holder()
+  holders = []
+  for p in case['parts']:
+    h = _Holder()
+    h.rngs = nnx.Rngs(**{s[0]: (s[1] if s[2] == 'int' else seed_key(s[2], s[1])) for s in p['streams']})
+    holders.append(h)
+    setattr(root if p['parent'] is None else holders[p['parent']], p['name'], h)
+  streams = [holders[o[0]].rngs[o[1]] for o in objs]
+  for an, pi, sname in case['aliases']:
+    setattr(root, an, holders[pi].rngs[sname])  # the same RngStream object in a second place
+  out = []
+  for op in case['ops']:
+    try:
+      if op[0] == 'call':
+        out.append(('key', kd(streams[places[op[1]]]())))
+      elif op[0] == 'reseed':
+        nnx.reseed(root, **{n: (v if k == 'int' else seed_key(k, v)) for n, v, k in op[1]})
+        out.append(('unit', None))
+      elif op[0] == 'state':
+        out.append(('state', [[i, kd(st.key.value), int(st.count.value)] for i, st in enumerate(streams)]))
+    except Exception as e:
+      out.append(('err', nnx_err(e)))
+  return out
+
+
+def check_node_case(ctx, drv, case, mouts=None):
+  objs, places = _node_layout(case)
+  reqs, seedtab = node_reqs(case)
+  (mo,) = mouts if mouts is not None else drv.run(reqs)
+  if mo[0] != 'ok':
+    raise RuntimeError(f'driver error {mo}')
+  ev = KeyEval(seedtab, force_typed=True)
+  want = []
+  for o in mo[1]:
+    if 'key' in o:
+      want.append(('key', ev.data(o['key'])))
+    elif 'unit' in o:
+      want.append(('unit', None))
+    elif 'state' in o:
+      want.append(('state', [[i, ev.data(kv['scalar']), cv['scalar']] for i, kv, cv in o['state']]))
+    else:
+      want.append(('err', o['err']))
+  got = run_node_impl(case)
+  nkeys = sum(1 for g in got if g[0] == 'key')
+  ctx.case(case, nontrivial=nkeys > 0)
+  ctx.count('keys_compared_with_model', 'nnx-node', nkeys)
+  tags = [o[1] for o in objs]
+  ctx.count('node_same_name_objects', max(tags.count(t) for t in set(tags)))
+  ctx.count('node_aliases', len(case['aliases']))
+  # property oracle, by this harness's own bookkeeping: (seed value, count) per stream *object*
+  book = [[o[2], 0] for o in objs]
+  for op, g in zip(case['ops'], got):
+    if g[0] == 'err':
+      ctx.violation('nnx-node-raises', f'{op} raised {g[1]} on a node whose streams are all scalar', case)
+      return False
+    if op[0] == 'call':
+      i = places[op[1]]
+      exp = kd(jax.random.fold_in(jax.random.key(book[i][0]), np.uint32(book[i][1])))
+      if g[1] != exp:
+        ctx.violation(
+          'nnx-node-key-not-fold-in', f'{op}: stream object #{i} ({objs[i][1]!r}) returned {g[1]}, but fold_in(key({book[i][0]}), {book[i][1]}) is {exp}', case,
+        )
+        return False
+      book[i][1] += 1
+    elif op[0] == 'reseed':
+      req = {n: v for n, v, _ in op[1]}
+      for i, o in enumerate(objs):
+        if o[1] in req:
+          book[i] = [req[o[1]], 0]
+    elif op[0] == 'state':
+      for i, keydata, cnt in g[1]:
+        if keydata != kd(jax.random.key(book[i][0])) or cnt != book[i][1]:
+          ctx.violation(
+            'nnx-reseed-misses-stream',
+            f'stream object #{i} (name {objs[i][1]!r}, in part {case["parts"][objs[i][0]]["name"]}) has key {keydata} count {cnt}; '
+            f'after the reseeds so far it must have key(seed {book[i][0]}) = {kd(jax.random.key(book[i][0]))} and count {book[i][1]}', case,
+          )
+          return False
+  if got != want:
+    ctx.disagreements_checked += 1
+    bad = next((i for i, (x, y) in enumerate(zip(got, want)) if x != y), None)
+    ctx.violation('nnx-node-model-mismatch', f'op #{bad} {case["ops"][bad] if bad is not None else None}: impl {str(got[bad])[:200]} model {str(want[bad])[:200]}', case, concrete=False)
+    return False
+  return True
+
+
+# ------------------------------------------------------------------------------------------------
 # histories of one stream (the machine `srun` of theorem nnx_no_replay_along_history)
 # ------------------------------------------------------------------------------------------------
 
@@ -1607,6 +1763,8 @@ def _run_case(ctx, drv, obj, rng=None):
     check_stream_history(ctx, drv, case)
   elif kind == 'jit-alias':
     check_jit_alias(ctx, drv, case)
+  elif kind == 'nnx-node':
+    check_node_case(ctx, drv, case)
   elif kind == 'probe-jit-shape':
     probe_shape_dependent_jit(ctx)
   elif kind == 'probe-separator-nul':
@@ -1705,6 +1863,7 @@ def run(ctx):
     c['getattr'] = rng.random() < 0.5
     nnx_cases.append(c)
   stream_cases = [gen_stream_history(rng) for _ in range(40 if not thorough else 600)]
+  node_cases = [gen_node_case(rng) for _ in range(80 if not thorough else 1200)]
 
   reqs, slices = [], []
 
@@ -1722,6 +1881,8 @@ def run(ctx):
     add(nnx_reqs(c))
   for c in stream_cases:
     add(stream_reqs(c))
+  for c in node_cases:
+    add(node_reqs(c)[0])
   answers = drv.run(reqs)
   it = iter(slices)
 
@@ -1766,6 +1927,9 @@ def run(ctx):
   ctx.sample(c)
   for c in stream_cases:
     check_stream_history(ctx, drv, c, mouts=mine())
+  ctx.sample(c)
+  for c in node_cases:
+    check_node_case(ctx, drv, c, mouts=mine())
   ctx.sample(c)
   lap('nnx')
   ctx.extra['driver_calls'] = drv.calls
